@@ -1,7 +1,12 @@
-"""C15 - compose IDs encode date, type and respin recoverably."""
+"""C15 - compose IDs encode date, type and respin recoverably.
+
+The Lean model is made of pure functions.  That the real `get_date_type_respin` behaves like one (same answer on a
+repeated call, nothing a caller does to a returned value leaks into a later call, no mutable object shared between
+calls) is OBSERVED on the real code by the `purity` probe (shared with C13: props/c13.py `purity_probe`), not proved."""
 import json, os
 import checklib
 from checklib import Prop, ROOT, guarded
+from props.c13 import purity_probe, PURITY_SEQUENCE
 
 # the documented suffix spellings (property text / doc): spelling -> compose type; "" = no suffix
 DOCUMENTED = [("", "production"), ("n", "nightly"), ("nightly", "nightly"), ("t", "test"), ("test", "test"), ("ci", "ci"),
@@ -183,7 +188,10 @@ class C15(Prop):
             if k in (0, 1, 2):
                 yield self.gen_create(rng, (i // 6) * 3 + k)
             elif k in (3, 4):
-                yield self.gen_decode(rng, (i // 6) * 2 + (k - 3))
+                c = self.gen_decode(rng, (i // 6) * 2 + (k - 3))
+                yield c
+                if i % 24 == 3:
+                    yield {"op": "purity", "args": {"fn": "get_date_type_respin", "s": decode_string(c["args"]), "sequence": PURITY_SEQUENCE}}
             else:
                 yield self.gen_legacy(rng, i // 6)
 
@@ -221,6 +229,8 @@ class C15(Prop):
         a = case["args"]
         if case["op"] == "decode":
             return guarded(pci.get_date_type_respin, decode_string(a))
+        if case["op"] == "purity":
+            return purity_probe(pci.get_date_type_respin, a["s"])
         if case["op"] == "create_decode":
             out = {"id": guarded(lambda: self.build_ci(a).create_compose_id()), "decoded": None, "validates": None}
             if "ok" in out["id"]:
@@ -247,6 +257,8 @@ class C15(Prop):
         a = case["args"]
         if case["op"] == "decode":
             return [{"op": "get_date_type_respin", "args": {"s": decode_string(a)}}]
+        if case["op"] == "purity":
+            return [{"op": "get_date_type_respin", "args": {"s": a["s"]}}]
         if case["op"] == "create_decode":
             return [{"op": "compose_id_roundtrip", "args": a}]
         if case["op"] == "legacy":
@@ -255,6 +267,8 @@ class C15(Prop):
         return []
 
     def compare(self, case, real_out, model_out):
+        if case["op"] == "purity":
+            return Prop.compare(self, case, real_out["first"], model_out)
         if case["op"] == "legacy":
             # loading also validates the decoded fields; compare when both sides produced values
             ld = real_out["loaded"]
@@ -268,6 +282,15 @@ class C15(Prop):
     # ------------------------------------------------------------------ the property itself
     def oracle(self, case, real_out):
         a = case["args"]
+        if case["op"] == "purity":
+            if real_out["second"] != real_out["first"]:
+                return {"observed": {"function": a["fn"], "argument": a["s"], "first call": real_out["first"],
+                                     "same call again (after editing the first result)": real_out["second"]},
+                        "required": "a repeated call returns the same answer", "kind": "result-aliased"}
+            if real_out["shared"]:
+                return {"observed": {"function": a["fn"], "argument": a["s"], "two calls share a mutable object": True},
+                        "required": "every call returns fresh values", "kind": "result-shared"}
+            return None
         if case["op"] == "decode":
             want = decode_expect(a)
             if want is not None and real_out != want:
@@ -297,6 +320,8 @@ class C15(Prop):
             return None
 
     def nontrivial(self, case, real_out):
+        if case["op"] == "purity":
+            return "ok" in real_out["first"]
         if case["op"] == "decode":
             return "ok" in real_out and real_out["ok"] != [None, None, None]
         if case["op"] == "legacy":
@@ -308,6 +333,8 @@ class C15(Prop):
             dist[k] = dist.get(k, 0) + 1
         op = case["op"]; a = case["args"]
         inc(op)
+        if op == "purity":
+            return
         if op == "decode":
             import re as _re
             mm = _re.search(r"\d{8}\.([A-Za-z_0-9]*[A-Z_][A-Za-z_0-9]*|[a-z]+[0-9_][a-z0-9_]*)\.(\d+)$", decode_string(a))
@@ -334,6 +361,8 @@ class C15(Prop):
         out = []
         def mk(**kw):
             c = json.loads(json.dumps(case)); c["args"].update(kw); return c
+        if case["op"] == "purity":
+            return out
         if case["op"] == "decode":
             if "s" in a:
                 return out
